@@ -1,6 +1,7 @@
 import Frp.Driver.Proto
 import Frp.Model.Host
 import Frp.Props.C06
+import Frp.Props.C06Conn
 /-
   Driver engine "router": replays the harness trace on the Router / Host models and evaluates the
   C06 predicate on the implementation's answers.
@@ -14,6 +15,9 @@ structure RouterState where
   all  : List Route := []               -- enumeration of R (kept by add/del below)
   M    : Routers := Router.empty
   mall : List Route := []
+  -- client connections (copen / creq / cclose): the model's connection table and how each was opened
+  cs    : HttpConn.Conns := []
+  forms : List (Nat × String) := []
 
 def delAll (all : List Route) (d l u : Str) : List Route :=
   all.filter (fun r => ¬ (r.domain = toLower d ∧ r.user = u ∧ r.location = l))
@@ -25,6 +29,26 @@ def resOfString (s : String) : Option (Option Nat) :=
 
 def routerPort (t : String) : Option (Option Str) :=
   if t = "-" then some none else (unhx t).map some
+
+/-- the model server over the engine's table (registration numbers = the ids of the `add` ops); the transport's
+    pool is left empty: by `C06.wrapped_own_route` the answer does not depend on it -/
+def srvOf (R : Routers) : HttpConn.Srv := { R := R, next := 0, pool := [] }
+
+/-- `<h1|h2>:<id|none>` → the answering registration -/
+def connRes (s : String) : Option (Option Nat) :=
+  if s.startsWith "h1:" ∨ s.startsWith "h2:" then resOfString (String.ofList (s.toList.drop 3)) else none
+
+/-- one request on client connection `c` through `HttpConn.step` (code as it is: `never`); the C06 predicate is
+    evaluated on the registration that answered in the implementation -/
+def connReq (st : RouterState) (c : Nat) (upgrade : Bool) (n : Str) (d : String) (p : Option Str) (path u : Str)
+    (impl : String) : RouterState × Verdict :=
+  let q : HttpConn.Req := { host := C06.spell n (d = "1") p, path := path, user := u, peer := c }
+  let r := HttpConn.step HttpConn.never (srvOf st.R) st.cs (.req c upgrade q false)
+  let proto := match r.2.1.lookup c with | some (some _) => "h2:" | _ => "h1:"
+  let ms := proto ++ (match r.2.2 with | some (some x) => toString x | _ => "none")
+  let prop := if C06.PlainName n ∧ C06.PortPlain p
+    then (connRes impl).map (fun a => C06.holdsOn st.all (toLower n) path u a) else none
+  ({ st with cs := r.2.1 }, verdictOf ms impl prop)
 
 def routerStep (st : RouterState) (tok : List String) (impl : String) : RouterState × Verdict :=
   match tok with
@@ -113,6 +137,36 @@ def routerStep (st : RouterState) (tok : List String) (impl : String) : RouterSt
         then (resOfString impl).map (fun r => C06.holdsOn st.all (toLower n) path u r) else none
       (st, verdictOf ms impl prop)
     | _, _, _, _ => (st, .bad "hreq")
+  | ["copen", c, form, n, d, p, path, u] =>
+    match c.toNat?, unhx n, routerPort p, unhx path, unhx u with
+    | some c, some n, some p, some path, some u =>
+      let st := { st with cs := st.cs.filter (fun e => e.1 ≠ c), forms := st.forms.filter (fun e => e.1 ≠ c) }
+      if form = "p" then
+        -- prior knowledge: HTTP/2 only if the pseudo request `PRI *` resolves to a route
+        let r := HttpConn.step HttpConn.never (srvOf st.R) st.cs (.pri c)
+        match r.2.1.lookup c with
+        | some (some _) => ({ st with cs := r.2.1, forms := (c, form) :: st.forms }, verdictOf "pri" impl)
+        | _ => ({ st with cs := r.2.1 }, verdictOf "dead" impl)
+      else if path.head? ≠ some 47 then (st, verdictOf "badpath" impl)
+      else if !asciiAll (n :: p.toList) then (st, .skip "non-ascii")
+      else connReq { st with forms := (c, form) :: st.forms } c (form = "u") n d p path u impl
+    | _, _, _, _, _ => (st, .bad "copen")
+  | ["creq", c, n, d, p, path, u] =>
+    match c.toNat?, unhx n, routerPort p, unhx path, unhx u with
+    | some c, some n, some p, some path, some u =>
+      match st.forms.lookup c with
+      | none => (st, verdictOf "gone" impl)
+      | some form =>
+        if path.head? ≠ some 47 then (st, verdictOf "badpath" impl)
+        else if !asciiAll (n :: p.toList) then (st, .skip "non-ascii")
+        else connReq st c (form = "u") n d p path u impl
+    | _, _, _, _, _ => (st, .bad "creq")
+  | ["cclose", c] =>
+    match c.toNat? with
+    | some c =>
+      ({ st with cs := (HttpConn.step HttpConn.never (srvOf st.R) st.cs (.close c)).2.1,
+                 forms := st.forms.filter (fun e => e.1 ≠ c) }, verdictOf "-" impl)
+    | none => (st, .bad "cclose")
   | _ => (st, .bad "op")
 
 def router : Engine := { State := RouterState, init := {}, step := routerStep }
